@@ -346,7 +346,8 @@ class Samplers(Family):
         for _ in range(n):
             s = gen.shape(rng, 1, 4 if tier == "thorough" else 3, 4)
             us, ints = _pool(rng)
-            k = rng.choice(["uniform", "nonzeros", "zeros", "semistrat", "stratified", "stratified", "stratified"])
+            k = rng.choice(["uniform", "nonzeros", "zeros", "zeros_norepl", "zeros_norepl", "semistrat", "stratified",
+                            "stratified", "stratified"])
             cells = gen.numel(s)
             c = {"k": k, "shape": s, "us": us, "ints": ints}
             if k == "uniform" and rng.random() < 0.3:
@@ -369,6 +370,23 @@ class Samplers(Family):
                 elif k == "zeros":
                     c["samples"] = b
                     c["rate"] = rng.choice(["1.1", "1.1", "1.125", "1.5", "2.0", "3.0", "1.0"])
+                elif k == "zeros_norepl":
+                    # direct call with with_replacement=False: requests up to and above the number of zeros,
+                    # around the "need too many" boundary, long pools (so that most zeros are reached) and
+                    # short ones (duplicates among the drawn rows)
+                    if klass in ("all", "allbut1") and rng.random() < 0.7:   # nearly full tensors are refused
+                        subs, vals = gen.sparse_entries(rng, s, rng.choice(["one", "some", "some", "empty"]))
+                        c.update(subs=subs, vals=vals, klass="some")
+                        nnz = len(subs)
+                    nz = cells - nnz
+                    top = (nz * (cells - 1)) // cells      # largest count that passes "need too many"
+                    if rng.random() < 0.65 and top >= 1:
+                        c["samples"] = rng.randint(1, top)
+                    else:
+                        c["samples"] = max(0, rng.choice([0, 1, 2, top, top + 1, nz - 1, nz, nz + 1]))
+                    c["rate"] = rng.choice(["1.1", "1.1", "1.125", "1.5", "2.0", "1.0"])
+                    if rng.random() < 0.6:
+                        c["us"] = [f"{rng.randrange(64)}/64" for _ in range(rng.choice([7, 53, 97]))]
                 else:
                     c["num_nonzeros"] = a
                     c["num_zeros"] = b
@@ -402,6 +420,14 @@ class Samplers(Family):
                     z = np.asarray(S.zeros(data, nz_idx_of(case), case["samples"], float(case["rate"])))
                     return [] if z.size == 0 else jval(z.astype(int))
                 impl = call(f)
+            elif k == "zeros_norepl":
+                def f():
+                    z = np.asarray(S.zeros(data, nz_idx_of(case), case["samples"], float(case["rate"]),
+                                           with_replacement=False))
+                    if z.ndim != 2:
+                        return {"not-a-matrix": list(z.shape)}
+                    return [] if z.size == 0 else jval(z.astype(int))
+                impl = call(f)
             elif k == "semistrat":
                 impl = call(lambda: canon_sample(S.semistrat(data, case["num_nonzeros"], case["num_zeros"])))
             else:
@@ -424,6 +450,9 @@ class Samplers(Family):
                     "with_replacement": case["with_replacement"], "idx": idx_j(rng)}
         if k == "zeros":
             return {"op": "c13_zeros", "shape": case["shape"], "nz_idx": jval(nz_idx_of(case)),
+                    "samples": case["samples"], "rate": rate_exact(case), "draws": draws_j(rng)}
+        if k == "zeros_norepl":
+            return {"op": "c13_zeros_norepl", "shape": case["shape"], "nz_idx": jval(nz_idx_of(case)),
                     "samples": case["samples"], "rate": rate_exact(case), "draws": draws_j(rng)}
         if k == "semistrat":
             return {"op": "c13_semistrat", "data": sparse_req(case), "num_nonzeros": case["num_nonzeros"],
@@ -465,6 +494,24 @@ class Samplers(Family):
                     else:
                         return Verdict("violation", f"zeros asked the generator for {rows} rows, the model needs {need['ok']}",
                                        impl, need, None, tags)
+        if k == "zeros_norepl" and rng.uniform_calls:
+            # the number of rows asked from the generator (coupon-collector estimate, not in the model):
+            # recomputed here with math.log; skipped when a ceiling sits within rounding of an integer
+            cells = gen.numel(c["shape"])
+            nzc = cells - len(c["subs"])
+            rows = int(rng.uniform_calls[0].shape[0])
+            nt = math.ceil(Fraction(c["samples"] * cells, nzc))
+            x = cells * math.log(1.0 / (1.0 - nt / cells)) if nt < cells else float("inf")
+            y = float(c["rate"]) * math.ceil(x) if math.isfinite(x) else float("inf")
+            if math.isfinite(y) and abs(x - round(x)) > 1e-9 and abs(y - round(y)) > 1e-9:
+                if rows != math.ceil(y):
+                    return Verdict("violation", f"zeros(with_replacement=False) asked the generator for {rows} rows, "
+                                   f"the coupon-collector formula gives {math.ceil(y)}", impl, None, None, tags)
+                if rng.uniform_calls[0].shape[1:] != (len(c["shape"]),):
+                    return Verdict("violation", "zeros(with_replacement=False): one draw per mode expected", impl, None,
+                                   None, tags)
+            else:
+                tags.append("need-rounding")
         if not deep_eq(impl_c, m):
             return Verdict("violation", "implementation differs from the (proved) model", impl, m, None, tags,
                            "ok" in impl)
@@ -472,6 +519,34 @@ class Samplers(Family):
             return Verdict("ok", "", impl, m, None, tags, False)
         o = impl["ok"]
         nontrivial = bool(o) and (not isinstance(o, dict) or len(o["subs"]) > 0)
+        if k == "zeros_norepl":
+            data = lookup_of(c)
+            what = ""
+            if isinstance(o, dict):
+                what = f"result of shape {o['not-a-matrix']} is not a matrix of subscripts"
+            elif len(o) > c["samples"]:
+                what = f"{len(o)} subscripts for {c['samples']} requested"
+            elif any(len(r) != len(c["shape"]) or any(not (0 <= x < e) for x, e in zip(r, c["shape"])) for r in o):
+                what = "a subscript is outside the tensor / has not one entry per mode"
+            elif any(data.get(tuple(r), 0) != 0 for r in o):
+                what = "a subscript reported as a zero holds a stored nonzero"
+            elif len({tuple(r) for r in o}) != len(o):
+                what = "duplicate subscripts although sampling without replacement"
+            elif c["samples"] > gen.numel(c["shape"]) - len(c["subs"]):
+                what = "more zeros requested than the tensor has, yet answered"
+            tags.append("norepl-short" if len(o) < c["samples"] else "norepl-full-count")
+            if rng.uniform_calls:
+                drawn = np.floor(rng.uniform_calls[0] * np.array(c["shape"])).astype(int).tolist()
+                if len({tuple(r) for r in drawn}) < len(drawn):
+                    tags.append("norepl-duplicate-rows-drawn")
+                if drawn != sorted(drawn):
+                    tags.append("norepl-unsorted-rows-drawn")
+                if any(data.get(tuple(r), 0) != 0 for r in drawn):
+                    tags.append("norepl-nonzero-drawn")
+            if o:
+                tags.append("norepl-nonempty")
+            return Verdict("violation" if what else "ok", "zeros(with_replacement=False): " + what if what else "",
+                           impl, m, None, tags, nontrivial)
         if k == "nonzeros":
             data = lookup_of(c)
             ok = len(o["subs"]) == len(o["vals"]) == c["samples"] and all(
@@ -704,12 +779,14 @@ class ScriptedOracle:
         self.fs, self.gs = fs, gs
         self.fi = self.gi = 0
         self.boundary = []
+        self.bweights = []
         self.calls = []
 
     def __call__(self, model, subs, vals, wgts, function_handle=None, gradient_handle=None,
                  lambda_check=True, crng=None):
         if gradient_handle is None:
             self.boundary.append([f.copy() for f in model.factor_matrices])
+            self.bweights.append(np.array(model.weights, dtype=float).copy())
             self.calls.append(("f", crng_list(crng)))
             v = self.fs[self.fi]
             self.fi += 1
@@ -759,11 +836,17 @@ class RecordingOracle:
     def __init__(self, real):
         self.real = real
         self.fs, self.gs, self.boundary, self.calls, self.fargs, self.gargs = [], [], [], [], [], []
+        self.bweights, self.mutated = [], []
 
     def __call__(self, model, subs, vals, wgts, function_handle=None, gradient_handle=None, **kw):
+        # the model as it is HANDED IN (an estimate has no business changing it)
+        before = ktensor_state(model)
         r = self.real(model, subs, vals, wgts, function_handle, gradient_handle, **kw)
+        if not same_state(before, ktensor_state(model)):
+            self.mutated.append(len(self.calls))
         if gradient_handle is None:
-            self.boundary.append([f.copy() for f in model.factor_matrices])
+            self.boundary.append(before[1:])
+            self.bweights.append(before[0])
             self.fs.append(float(r))
             self.calls.append(("f", crng_list(kw.get("crng"))))
             self.fargs.append((np.array(subs).copy(), np.asarray(vals, dtype=float).reshape(-1).copy(),
@@ -846,6 +929,28 @@ def conv_bits(x):
 def indices_equal(boundary, factors):
     return [j for j, b in enumerate(boundary)
             if len(b) == len(factors) and all(np.array_equal(x, y) for x, y in zip(b, factors))]
+
+
+WEIGHT_POOL = ["2", "-1", "1/2", "-3/2", "3", "0", "1"]
+
+
+def gen_weights(rng, rank, p_unit=0.5):
+    """Weights of a starting guess handed to solve() DIRECTLY: all one (what gcp_opt passes), or of both signs /
+    zero / other magnitudes (a ktensor as users hold them)."""
+    if rng.random() < p_unit:
+        return ["1"] * rank
+    w = [rng.choice(WEIGHT_POOL) for _ in range(rank)]
+    if all(x == "1" for x in w):
+        w[rng.randrange(rank)] = rng.choice(["-1", "2", "-3/2"])
+    return w
+
+
+def ktensor_state(k):
+    return [np.array(k.weights, dtype=float).copy()] + [np.array(f, dtype=float).copy() for f in k.factor_matrices]
+
+
+def same_state(a, b):
+    return len(a) == len(b) and all(x.shape == y.shape and np.array_equal(x, y) for x, y in zip(a, b))
 
 
 def last_index_equal(boundary, factors):
@@ -946,7 +1051,8 @@ class SolverScripted(Family):
                     if all(x == 0 for A in g for row in A for x in row):
                         g[0][0][0] = 1
                     gs.append(g)
-                solves.append({"shape": shape, "rank": rank, "init": init, "fs": [str(x) for x in fs], "gs": gs})
+                solves.append({"shape": shape, "rank": rank, "init": init, "weights": gen_weights(rng, rank),
+                               "fs": [str(x) for x in fs], "gs": gs})
             out.append({"kind": kind, "hyper": h, "lb": lb, "solves": solves, "crng": rng.choice([0, 0, 1, 3])})
         return out
 
@@ -960,17 +1066,21 @@ class SolverScripted(Family):
         for s in case["solves"]:
             if opt is None or not shared:
                 opt = CLS[kind](**hyper_kwargs(kind, h))
-            init = ttb.ktensor([np.array([[float(Fraction(x)) for x in row] for row in A]) for A in s["init"]])
+            init = ttb.ktensor([np.array([[float(Fraction(x)) for x in row] for row in A]) for A in s["init"]],
+                               np.array([float(Fraction(x)) for x in s.get("weights") or ["1"] * s["rank"]]))
             data = ttb.tensor(np.ones(tuple(s["shape"])))
             oracle = ScriptedOracle([float(Fraction(x)) for x in s["fs"]], s["gs"])
 
             def f(opt=opt, init=init, data=data, oracle=oracle, s=s):
                 cfg_before = snapshot(opt)
+                init_before = ktensor_state(init)
                 with patched(O, "estimate", oracle), quiet():
                     m, info = opt.solve(init, data, _FH, _GH, -np.inf if lb is None else lb,
                                         DummySampler(len(s["shape"]), case.get("crng", 0)))
                 fm = [x.copy() for x in m.factor_matrices]
-                return {"factors": [tolist(x) for x in fm], "f_est_trace": tolist(info["f_est_trace"]),
+                return {"factors": [tolist(x) for x in fm], "weights": tolist(m.weights),
+                        "init_changed": not same_state(init_before, ktensor_state(init)),
+                        "f_est_trace": tolist(info["f_est_trace"]),
                         "step_trace": tolist(info["step_trace"]), "n_epoch": int(info["n_epoch"]),
                         "nfails": int(opt._nfails), "n_boundaries": len(oracle.boundary),
                         "best_index": last_index_equal(oracle.boundary, fm),
@@ -993,7 +1103,7 @@ class SolverScripted(Family):
             conv = conv_exact if exact else conv_bits
             reqs.append({"op": "c13_solves" if exact else "c13_solves_float", "kind": c["kind"],
                          "hyper": hyper_req(c["hyper"], conv), "state": state_req(FRESH, conv),
-                         "solves": [{"init": {"weights": [conv(Fraction(1))] * s["rank"],
+                         "solves": [{"init": {"weights": [conv(Fraction(x)) for x in s.get("weights") or ["1"] * s["rank"]],
                                               "factors": [[[conv(Fraction(x)) for x in row] for row in A] for A in s["init"]]},
                                      "lb": None if c["lb"] is None else conv(Fraction(c["lb"])),
                                      "fs": [conv(Fraction(x)) for x in s["fs"]],
@@ -1010,12 +1120,14 @@ class SolverScripted(Family):
             if impl[key] != m[key]:
                 return f"{key}: implementation {impl[key]}, model {m[key]}"
         if exact:
-            for key in ("factors", "f_est_trace", "step_trace"):
+            for key in ("factors", "weights", "f_est_trace", "step_trace"):
                 if not deep_eq(jval(impl[key]), m[key]):
                     return f"{key} differs from the model"
         else:
             if not deep_eq(bits_deep(impl["f_est_trace"]), m["f_est_trace"]):
                 return "f_est_trace differs from the model"
+            if not deep_eq(bits_deep(impl["weights"]), m["weights"]):
+                return "weights of the returned model differ from the model's"
             for key in ("factors", "step_trace"):
                 if not close_deep(impl[key], m[key], rel):
                     return f"{key} differs from the model beyond {rel}"
@@ -1035,6 +1147,10 @@ class SolverScripted(Family):
                 "lb=" + ("none" if c["lb"] is None else "finite")]
         if len({(tuple(s["shape"]), s["rank"]) for s in c["solves"]}) > 1:
             tags.append("sizes-differ")
+        if any(any(x != "1" for x in s.get("weights") or []) for s in c["solves"]):
+            tags.append("start-weights-not-one")
+        if any(any(Fraction(x) < 0 for x in s.get("weights") or []) for s in c["solves"]):
+            tags.append("start-weight-negative")
         lb = None if c["lb"] is None else float(Fraction(c["lb"]))
         nontrivial = False
         for k, s in enumerate(c["solves"]):
@@ -1047,6 +1163,8 @@ class SolverScripted(Family):
                 r = sh["ok"]
                 feasible = lb is None or all(float(Fraction(x)) >= lb for A in s["init"] for row in A for x in row)
                 what = spec_solve(h, lb, s["init"], r, feasible)
+                if not what and r["init_changed"]:
+                    what = "the solve modified the starting guess it was handed"
                 if not what and r["cfg_changed"]:
                     what = f"the solve changed the configuration of the solver object: {r['cfg_changed']}"
                 if not what:
@@ -1130,6 +1248,8 @@ def real_problem(c):
         init = ttb.ktensor([a + (b - a) * r.uniform(size=(s, c["rank"])) for s in shape])
     else:
         init = ttb.ktensor([lo + 0.1 + r.uniform(size=(s, c["rank"])) for s in shape])
+    if c.get("weights") is not None:   # a start whose weights are not all one (direct solve() only)
+        init = ttb.ktensor([f.copy() for f in init.factor_matrices], np.array([float(Fraction(x)) for x in c["weights"]]))
     return data, fh, gh, lb, init
 
 
@@ -1192,6 +1312,8 @@ class SolverReal(Family):
                          # gradient sample makes estimate() raise (error path, degenerate), so keep it unlikely
                          "gsamp": rng.randint(14, 20) if (sparse and gkind == "uniform") else count(gkind, 2, 6),
                          "via": ["solve", "gcp_opt"][(nprob + ci) % 2]}
+                    if p["via"] == "solve":   # gcp_opt always hands over unit weights; a direct caller need not
+                        p["weights"] = gen_weights(rng, p["rank"], 0.4)
                     base = base or p
                 probs.append(p)
             out.append({"kind": kind, "hyper": h, "problems": probs})
@@ -1213,6 +1335,9 @@ class SolverReal(Family):
                              "default_sampler": True, "fkind": None, "gkind": None, "fsamp": None, "gsamp": None,
                              "via": ["solve", "gcp_opt"][k % 2]}
                         b = dict(a, dseed=rng.randrange(10 ** 6), seed=rng.randrange(10 ** 6), via=["gcp_opt", "solve"][k % 2])
+                        for q in (a, b):
+                            if q["via"] == "solve":
+                                q["weights"] = gen_weights(rng, q["rank"], 0.5)
                         if rel == "same-shape-other-pattern":
                             b.update(mseed=rng.randrange(10 ** 6),
                                      density=rng.choice([d for d in ("1/4", "1/2", "3/4") if d != a["density"]]))
@@ -1267,6 +1392,7 @@ class SolverReal(Family):
                   fsample=fsample, default=default, arr=arr):
                 np.random.seed(p["seed"])
                 cfg_before = snapshot(opt)
+                init_before = ktensor_state(init)
                 opt.update_step = rec_step
                 try:
                     with patched(O, "estimate", oracle), quiet():
@@ -1297,7 +1423,11 @@ class SolverReal(Family):
                     bad_sample = sample_vs_data(arr, a, nonzero_values_only=semi)
                     if bad_sample:
                         bad_sample = f"gradient sample #{gi}: " + bad_sample
-                return {"factors": [tolist(x) for x in fm], "f_est_trace": tolist(info["f_est_trace"]),
+                return {"factors": [tolist(x) for x in fm], "weights": tolist(m.weights),
+                        "start_weights": tolist(oracle.bweights[0]) if oracle.bweights else tolist(init.weights),
+                        "init_changed": not same_state(init_before, ktensor_state(init)),
+                        "estimate_mutated_model": list(oracle.mutated),
+                        "f_est_trace": tolist(info["f_est_trace"]),
                         "step_trace": tolist(info["step_trace"]), "n_epoch": int(info["n_epoch"]),
                         "nfails": int(opt._nfails), "n_boundaries": len(oracle.boundary),
                         "best_index": last_index_equal(oracle.boundary, fm),
@@ -1322,7 +1452,8 @@ class SolverReal(Family):
             # the model the solver really started from (gcp_opt normalises the guess first)
             start = oracle.boundary[0] if oracle.boundary else init.factor_matrices
             results.append({"r": r, "steps": steps, "gs": oracle.gs, "init": [tolist(x) for x in start],
-                            "weights": [1.0] * p["rank"], "lb": None if not np.isfinite(lb) else float(lb)})
+                            "weights": tolist(oracle.bweights[0]) if oracle.bweights else tolist(init.weights),
+                            "lb": None if not np.isfinite(lb) else float(lb)})
             if "ok" not in r:
                 break
         return results
@@ -1363,7 +1494,10 @@ class SolverReal(Family):
                sorted({"via-" + p.get("via", "solve") for p in c["problems"]}) + \
                sorted({f"f={p.get('fkind')}/g={p.get('gkind')}" for p in c["problems"]}) + \
                (["default-sampler", "rel=" + c.get("relation", "-")] if any(p.get("default_sampler") for p in c["problems"]) else []) + \
-               sorted({"sparse" if p["sparse"] else "dense" for p in c["problems"]})
+               sorted({"sparse" if p["sparse"] else "dense" for p in c["problems"]}) + \
+               (["start-weights-not-one"] if any(any(x != "1" for x in p.get("weights") or []) for p in c["problems"]) else []) + \
+               (["start-weight-negative"] if any(any(Fraction(x) < 0 for x in p.get("weights") or [])
+                                                 for p in c["problems"]) else [])
         run_reply = next(rep for what, _, rep in replies if what == "run")
         ok_i = 0
         nontrivial = False
@@ -1373,6 +1507,13 @@ class SolverReal(Family):
                 return Verdict("violation", f"solve #{k + 1} raised: {r.get('exc')}: {r.get('msg')}", r, None, None, tags)
             o = r["ok"]
             what = spec_solve(h, x["lb"], None, o, True)
+            if not what and o["init_changed"]:
+                what = "the solve modified the starting guess it was handed"
+            if not what and o["weights"] != o["start_weights"]:
+                what = (f"the returned model has weights {o['weights']}, the start had {o['start_weights']} (the solve "
+                        "updates factor matrices only)")
+            if not what and o["estimate_mutated_model"]:
+                what = f"estimate calls {o['estimate_mutated_model']} changed the model they were handed"
             if not what:
                 what = o["crng_misuse"]
             if not what and o["n_fsamples_drawn"] != 1:
@@ -1437,6 +1578,9 @@ class SolverReal(Family):
                                    r, mk, None, tags)
             if not deep_eq(bits_deep(o["f_est_trace"]), mo["f_est_trace"]):
                 return Verdict("violation", f"solve #{k + 1}: f_est_trace differs from the model", r, mk, None, tags)
+            if not deep_eq(bits_deep(o["weights"]), mo["weights"]):
+                return Verdict("violation", f"solve #{k + 1}: weights of the returned model differ from the model's",
+                               r, mk, None, tags)
             if not (close_deep(o["factors"], mo["factors"], 1e-8) and close_deep(o["step_trace"], mo["step_trace"], 1e-8)):
                 return Verdict("violation", f"solve #{k + 1}: factors / steps differ from the model at Float beyond 1e-8",
                                r, mk, None, tags)
